@@ -11,8 +11,16 @@ import c12_oracle as orc
 def make_site(spec):
     import tenpy.networks.site as S
     cls, kwargs = spec
-    kw = {k: v for k, v in kwargs.items()}
-    return getattr(S, cls)(**kw)
+    kw = {k: v for k, v in kwargs.items() if not k.startswith('_')}
+    site = getattr(S, cls)(**kw)
+    if kwargs.get('_mod'):
+        # the conserved U(1) charge(s) of the site kept only modulo N (a Z_N charge), through the public Site.change_charge
+        import tenpy.linalg.np_conserved as npc
+        N = int(kwargs['_mod'])
+        old = site.leg
+        chinfo = npc.ChargeInfo([N] * old.chinfo.qnumber, [str(n) + '_mod_%d' % N for n in old.chinfo.names])
+        site.change_charge(npc.LegCharge.from_qflat(chinfo, np.mod(old.to_qflat(), N), old.qconj))
+    return site
 
 
 def site_to_doc_index(site, doc):
@@ -86,6 +94,27 @@ def random_finite_mps(rng, chain, cplx=True, chi_max=None, sector=None):
         mps.canonical_form(renormalize=True)
         mps.norm = 1.0
     return mps, q
+
+
+def random_charged_infinite_mps(rng, chain, chi=4, steps=4):
+    """iMPS with the (charged) unit cell `chain`: a random product state of basis states evolved with seeded random two-site
+    unitaries that respect the charges of the sites (tenpy's RandomUnitaryEvolution; only used to MAKE a state - the dense
+    reference is recomputed from the tensors the MPS holds), brought to canonical form."""
+    from tenpy.networks.mps import MPS
+    from tenpy.algorithms import tebd
+    L = len(chain.sites)
+    p_state = [int(rng.integers(0, s.dim)) for s in chain.sites]
+    if L >= 2 and len(set(p_state)) == 1:
+        p_state[0] = (p_state[0] + 1) % chain.sites[0].dim
+    psi = MPS.from_product_state(chain.sites, p_state, bc='infinite', unit_cell_width=L)
+    state = np.random.get_state()
+    np.random.seed(int(rng.integers(0, 2 ** 31 - 1)))
+    try:
+        tebd.RandomUnitaryEvolution(psi, {'N_steps': int(steps), 'trunc_params': {'chi_max': int(chi), 'svd_min': 1.e-12}}).run()
+    finally:
+        np.random.set_state(state)
+    psi.canonical_form()
+    return psi
 
 
 def random_infinite_mps(rng, chain, chi=3, cplx=True):
